@@ -210,7 +210,7 @@ Section Kernels.
   (* shiftLeft: returns (new positions, performed shift) *)
   Fixpoint shl_loop (pos : handle -> Z) (l : list handle) (x : handle) (amount : Z) (prev : option handle) : (handle -> Z) * Z :=
     match l with
-    | [] => (pos, amount)                          (* not found: perfShift stays = amount *)
+    | [] => (pos, 0)                               (* not found: perfShift stays 0 *)
     | t :: r =>
       if Nat.eqb x t then
         let ts := pos t in
@@ -229,7 +229,7 @@ Section Kernels.
   (* shiftRight. NB the two clamps both test the *unclamped* targetEndBit, as in the code. *)
   Fixpoint shr_loop (pos : handle -> Z) (size : Z) (l : list handle) (x : handle) (amount : Z) : (handle -> Z) * Z :=
     match l with
-    | [] => (pos, amount)
+    | [] => (pos, 0)
     | t :: r =>
       if Nat.eqb x t then
         let ts := pos t in
